@@ -2,6 +2,6 @@ SPECIFICATION TraceSpec
 CONSTANTS
   MaxDepth = 1000000
 INVARIANTS InitLeSpare Nested Contents OwnerBytes Untouched
-PROPERTIES Frame WriteBack Refusal SliceReported RefusedCounts
+PROPERTIES Frame FrameTop WriteBack Refusal SliceReported RefusedCounts UserCounts
 POSTCONDITION TraceAccepted
 CHECK_DEADLOCK FALSE
